@@ -70,7 +70,14 @@ fn main() {
         }
         "run" => {
             let op = &args[1];
-            match ops::run_op(op, &args[2..]) {
+            // `run <op> <args> --after <args of the preceding input>`: the preceding input of the search sequence is
+            // replayed first (result ignored), so that a witness that depends on the previous call reproduces
+            let cut = args.iter().position(|a| a == "--after");
+            if let Some(c) = cut {
+                let _ = ops::run_op(op, &args[c + 1..]);
+            }
+            let end = cut.unwrap_or(args.len());
+            match ops::run_op(op, &args[2..end]) {
                 Ok(()) => println!("PASS"),
                 Err(e) => {
                     println!("FAIL {}", e);
@@ -85,19 +92,27 @@ fn main() {
             let mut tried = 0u64;
             let mut rng = ops::Rng::new(seed);
             let mut found = None;
+            let mut prev: Option<Vec<String>> = None;
             ops::generate(op, &mut rng, budget, &mut |a: Vec<String>| {
                 tried += 1;
                 if std::env::var("A5REPLAY_TRACE").is_ok() {
                     eprintln!("TRY {} {}", op, a.join(" "));
                 }
                 if let Err(e) = ops::run_op(op, &a) {
-                    found = Some((a, e));
+                    found = Some((a, e, prev.clone()));
                     return false;
                 }
+                prev = Some(a);
                 true
             });
             match found {
-                Some((a, e)) => {
+                Some((a, e, prev)) => {
+                    // if the input fails on its own the predecessor is irrelevant; otherwise name it
+                    let alone = std::process::Command::new(std::env::current_exe().unwrap()).arg("run").arg(op).args(&a).output();
+                    let fails_alone = matches!(&alone, Ok(o) if o.status.code() == Some(1));
+                    if let (false, Some(p)) = (fails_alone, &prev) {
+                        println!("AFTER {}", p.join(" "));
+                    }
                     println!("FAIL {} {} :: {}", op, a.join(" "), e);
                     std::process::exit(1);
                 }
